@@ -30,8 +30,8 @@ ASSUMPTIONS = [
 ]
 EXHAUSTIVE = {"quick": False, "thorough": True}
 PLAN = {"quick": dict(depth2=5000, depth3=0), "thorough": dict(depth2=None, depth3=60000)}
-FLOORS = {"quick": {"annotations_built": 5000, "passthrough_probes": 120, "rebuild_fingerprints": 5000, "leaf_kinds": 47, "constructors": 23, "generic_class_probes": 60, "bare_container_probes": 150},
-          "thorough": {"annotations_built": 60000, "passthrough_probes": 120, "rebuild_fingerprints": 60000, "leaf_kinds": 47, "constructors": 23, "generic_class_probes": 80, "bare_container_probes": 200}}
+FLOORS = {"quick": {"annotations_built": 5000, "passthrough_probes": 120, "rebuild_fingerprints": 5000, "leaf_kinds": 47, "constructors": 26, "generic_class_probes": 60, "bare_container_probes": 150},
+          "thorough": {"annotations_built": 60000, "passthrough_probes": 120, "rebuild_fingerprints": 60000, "leaf_kinds": 47, "constructors": 26, "generic_class_probes": 80, "bare_container_probes": 200}}
 
 MOD = "vtot_ns"
 SRC = '''
@@ -82,7 +82,8 @@ CTORS = {
     "typing.Sequence": "typing.Sequence[{}]", "typing.Mapping": "typing.Mapping[str, {}]", "deque": "collections.deque[{}]",
     "abc.Mapping": "collections.abc.Mapping[str, {}]", "typing.Dict": "typing.Dict[str, {}]", "typing.Tuple": "typing.Tuple[{}, ...]",
     "newtype": None, "alias": None, "Final": "typing.Final[{}]", "ClassVar": "typing.ClassVar[{}]",
-    "dcfield": None, "ntfield": None, "tdfield": None, "two_variadic": None, "two_fixed": None, "Box": "Box[{}]",
+    "dcfield": None, "ntfield": None, "tdfield": None, "two_variadic": None, "two_fixed": None, "list_then_bare": None, "Box": "Box[{}]",
+    "two_parents": "tuple[list[{0}], typing.Sequence[{0}]]", "dict_two_parents": "dict[str, tuple[list[{0}], collections.deque[{0}]]]",
 }
 PROBES = [1, "1", "[1]", None, {"a": 1}, [1, 2], "x", b"1", 2.5, {"x": 3}, ["a"], True]
 _N = [0]
@@ -113,7 +114,7 @@ def apply(ctor, inner_src, ns):
             obj = typing.TypeAliasType(name, eval(inner_src, ns.__dict__))
             setattr(ns, name, obj)
             return name, obj
-        if ctor in ("dcfield", "ntfield", "tdfield", "two_variadic", "two_fixed"):
+        if ctor in ("dcfield", "ntfield", "tdfield", "two_variadic", "two_fixed", "list_then_bare"):
             name = f"C{n}"
             if ctor == "dcfield":
                 src = f"@dataclasses.dataclass\nclass {name}:\n    f: {inner_src}\n"
@@ -121,6 +122,9 @@ def apply(ctor, inner_src, ns):
                 src = f"class {name}(typing.NamedTuple):\n    f: {inner_src}\n"
             elif ctor == "tdfield":
                 src = f"class {name}(typing.TypedDict):\n    f: {inner_src}\n"
+            elif ctor == "list_then_bare":
+                # the member type inside a container first, then on its own: two parents holding the same (possibly opaque) member
+                src = f"@dataclasses.dataclass\nclass {name}:\n    items: list[{inner_src}]\n    extra: {inner_src}\n    more: tuple[{inner_src}, ...] = ()\n"
             elif ctor == "two_fixed":
                 # one fixed tuple type used several times in a class (directly and inside a list)
                 src = (f"@dataclasses.dataclass\nclass {name}:\n    a: tuple[{inner_src}, {inner_src}]\n    b: list[tuple[{inner_src}, {inner_src}]]\n"
@@ -174,7 +178,8 @@ def passthrough_probe(sh, ctor, leaf, src, T):
              "tuplefix": (sentinel, 1), "dict": {"k": sentinel}, "typing.Dict": {"k": sentinel}, "typing.Mapping": {"k": sentinel},
              "abc.Mapping": {"k": sentinel}, "Optional": sentinel, "pipe": sentinel, "deque": [sentinel], "dcfield": {"f": sentinel},
              "ntfield": {"f": sentinel}, "tdfield": {"f": sentinel}, "newtype": sentinel, "alias": sentinel, "Final": sentinel, "ClassVar": sentinel,
-             "<root>": sentinel, "two_fixed": {"a": (sentinel, sentinel), "b": [(sentinel, sentinel)], "c": (sentinel, sentinel)}}.get(ctor)
+             "<root>": sentinel, "two_parents": ([sentinel], [sentinel]), "dict_two_parents": {"k": ([sentinel], [sentinel])},
+             "list_then_bare": {"items": [sentinel], "extra": sentinel, "more": (sentinel,)}, "two_fixed": {"a": (sentinel, sentinel), "b": [(sentinel, sentinel)], "c": (sentinel, sentinel)}}.get(ctor)
     if shape is None:
         return
     sh.count("passthrough_probes")
@@ -182,7 +187,7 @@ def passthrough_probe(sh, ctor, leaf, src, T):
         if direction == "marshal" and ctor in ("dcfield", "ntfield"):
             continue
         arg = shape
-        if direction == "marshal" and ctor == "two_fixed":
+        if direction == "marshal" and ctor in ("two_fixed", "list_then_bare"):
             arg = T(**shape)  # an instance: the routines are called for the first time on it
         try:
             with quiet():
